@@ -287,7 +287,7 @@ def content_rules(facts, rep):
         except Exception:       # noqa: BLE001 -- too many paths: leave it to the structural rules above
             ps = None
         if ps is not None:
-            nd = nf = bad = 0
+            nd = nf = bad = nopar = 0
             for p_ in ps:
                 dec = [(i_, v_) for i_, (a_, v_) in enumerate(p_["decisions"]) if re.search(r"str>::ends_with\(|^str::ends_with\(|::is_dir\(", a_)]
                 if not dec or outcome(p_)[0] not in ("Ok",):
@@ -299,9 +299,18 @@ def content_rules(facts, rep):
                 elif dec[-1][1] == 0:
                     nf += 1
                     bad += not any(re.search(r"fs::File::create$|OpenOptions::open$", n_) for n_ in names)
+                    # ... inside a directory that exists: when the path has a parent, it is created first unless it was found to exist
+                    par = [v_ for a_, v_ in p_["decisions"] if re.match(r"^discr\(.*Path::parent\(", a_)]
+                    if par and par[-1] == 1:
+                        exists = [v_ for a_, v_ in p_["decisions"] if re.search(r"Path::exists\(|Path::is_dir\(", a_)]
+                        cr_i = [i_ for i_, n_ in enumerate(names) if re.search(r"fs::File::create$|OpenOptions::open$", n_)]
+                        mk_i = [i_ for i_, n_ in enumerate(names) if n_.endswith("fs::create_dir_all")]
+                        if not ((mk_i and cr_i and mk_i[0] < cr_i[0]) or (exists and exists[-1] == 1)):
+                            bad += 1
+                            nopar += 1
             ok &= rep.check(nd >= 1 and nf >= 1 and bad == 0, rule, "entry-materialised@%s" % f.path.split("::")[-1], where(f, f.span),
                             "on every successful path a directory entry is created with create_dir_all and a file entry gets its file",
-                            "an entry can be passed over successfully without its directory / file being created (%d directory paths, %d file paths, %d without the creation)" % (nd, nf, bad))
+                            "an entry can be passed over successfully without its directory / file (or the file's missing parent directory: %d paths) being created (%d directory paths, %d file paths, %d without the creation)" % (nopar, nd, nf, bad))
     return ok
 
 
